@@ -41,6 +41,8 @@ pub struct Outcome {
     pub transitions: Vec<(String, String, String)>,
     /// description of the last fault that fired: (class, role)
     pub last_fault: Option<(String, String)>,
+    /// HashSet iteration orders reported by build nodes (reach measure of the hash-seed seam)
+    pub canaries: Vec<String>,
 }
 
 fn role_of(path: &str) -> &'static str {
@@ -116,6 +118,11 @@ pub fn claimed(property: &str, tag: &str, inv: &str) -> Option<&'static str> {
                 _ => None,
             }
         }
+        "C20" => match inv {
+            "current-after-build" | "report-current-after-build" => Some("same-bytes"),
+            "ok-iff-all-built" | "absent-after-failed-build" | "no-panic" => Some("same-outcome"),
+            _ => None,
+        },
         "C23" => match inv {
             "mutated-set-equals-expected" => Some("mutated-set-equals-expected"),
             "current-after-build" => Some("content-at-expected-path"),
@@ -130,7 +137,7 @@ pub fn claimed(property: &str, tag: &str, inv: &str) -> Option<&'static str> {
     }
 }
 
-fn key_for(property: &str, inv: &str, orig_inv: &str, f: &Failure, out: &Outcome, last_op: &str) -> String {
+fn key_for(property: &str, inv: &str, orig_inv: &str, f: &Failure, out: &Outcome, last_op: &str, node: &crate::node::NodeSpec) -> String {
     let g = |k: &str| f.facets.get(k).cloned().unwrap_or_else(|| "-".into());
     match property {
         "C22" => {
@@ -141,6 +148,14 @@ fn key_for(property: &str, inv: &str, orig_inv: &str, f: &Failure, out: &Outcome
                 orig_inv.to_string()
             };
             format!("{inv}|fault={fc}|at={role}|after={after}")
+        }
+        "C20" => {
+            let multi = match &node.kind {
+                crate::node::NodeKind::Api { calls } => calls.len() > 1 || calls.iter().any(|c| c.entry != "process_file"),
+                crate::node::NodeKind::Cli { args } => args.iter().filter(|a| a.ends_with(".lalrpop")).count() > 1,
+            };
+            let varies = if node.hashseed != 0 { "hash-seed" } else if multi { "batch-or-order" } else if node.leak > 0 { "address-shift" } else { "name-or-env" };
+            format!("{inv}|varies={varies}|text={}|what={}|msg={}", g("text"), orig_inv, g("msg"))
         }
         "C21" => {
             let _ = last_op;
@@ -155,8 +170,12 @@ fn key_for(property: &str, inv: &str, orig_inv: &str, f: &Failure, out: &Outcome
         }
         "C23" => {
             let mut k = inv.to_string();
+            if let Some(n) = f.facets.get("name") {
+                // a degenerate file name is the cause whatever the entry point
+                return format!("{k}|name={n}");
+            }
             for (name, v) in &f.facets {
-                if matches!(*name, "name" | "op" | "mode" | "kind" | "expected" | "entry") {
+                if matches!(*name, "name" | "op" | "mode" | "kind" | "expected" | "entry" | "post" | "files") {
                     k.push_str(&format!("|{name}={v}"));
                 }
             }
@@ -187,11 +206,14 @@ pub fn run_ops(ctx: &Ctx, sc: &Scenario, reset: bool) -> Outcome {
                     let obs = checked_build(ctx, node);
                     log_run(&obs.run, &mut out.log);
                     record_faults(&obs.run, &mut out);
+                    if let Some(c) = &obs.run.canary {
+                        out.canaries.push(c.clone());
+                    }
                     out.probes.add(&obs.probes);
                     out.transitions.extend(obs.transitions.iter().cloned());
                     for f in &obs.failures {
                         if let Some(inv) = claimed(&sc.property, tag, f.invariant) {
-                            let key = key_for(&sc.property, inv, f.invariant, f, &out, &last_op);
+                            let key = key_for(&sc.property, inv, f.invariant, f, &out, &last_op, node);
                             out.violations.push(Violation {
                                 property: sc.property.clone(),
                                 invariant: inv.to_string(),
